@@ -185,7 +185,7 @@ def check_weighted(ctx, case) -> None:
             nontrivial = True
         # convexity for constants
         if case["defuzzifier"] == "WeightedAverage" and pos and all(tmap[n]["cls"] == "Constant" for n in pos) \
-                and not math.isnan(got):
+                and not math.isnan(got) and all(math.isfinite(float(tmap[n]["p"][0])) for n in pos):
             vals = [float(tmap[n]["p"][0]) for n in pos]
             slack = 1e-12 * max(1.0, max(abs(v) for v in vals))
             ctx.check(min(vals) - slack <= got <= max(vals) + slack, "constants-convex", dict(case, row=row),
@@ -229,7 +229,9 @@ def cases(draw):
         k = draw(st.sampled_from(["ts", "mono", "other"])) if mix else kind
         cls = draw(st.sampled_from(KINDS[k]))
         if cls == "Constant":
-            terms.append({"cls": "Constant", "p": [draw(gen.loc(rg))], "h": 1.0, "name": nm})
+            # a constant may be infinite or not yet configured (NaN): at degree 0 it still contributes nothing
+            val = draw(gen.loc(rg)) if draw(st.integers(0, 7)) else draw(st.sampled_from([math.inf, -math.inf, math.nan]))
+            terms.append({"cls": "Constant", "p": [val], "h": 1.0, "name": nm})
         elif cls == "Linear":
             n = ni + draw(st.integers(0, 1))
             terms.append({"cls": "Linear", "p": [draw(gen.loc(rg)) for _ in range(n)], "h": 1.0, "name": nm})
